@@ -264,10 +264,10 @@ class Case:
                 l.backward()
                 ropt.step()
         for k, (p, q) in enumerate(zip(params, ref_params)):
-            out.pair("parameter %d after fit = hand-rolled loop" % k, p.data, q.data)
+            out.pair("parameter %d after fit = hand-rolled loop" % k, snapshot(p.data), snapshot(q.data))
         for k, (b1, b2) in enumerate(zip(bns, ref_bns)):
-            out.pair("running_mean %d after fit = hand-rolled loop (validation changed no statistic)" % k, b1.running_mean.data, b2.running_mean.data)
-            out.pair("running_var %d after fit = hand-rolled loop (validation changed no statistic)" % k, b1.running_var.data, b2.running_var.data)
+            out.pair("running_mean %d after fit = hand-rolled loop (validation changed no statistic)" % k, snapshot(b1.running_mean.data), snapshot(b2.running_mean.data))
+            out.pair("running_var %d after fit = hand-rolled loop (validation changed no statistic)" % k, snapshot(b1.running_var.data), snapshot(b2.running_var.data))
             out.fact("num_batches_tracked %d counts training batches only" % k, b1.num_batches_tracked == sp["epochs"] * nb,
                      "%s" % b1.num_batches_tracked)
         # ---- Trainer.test: eval mode, no gradient tracking, mode restored, nothing changed
@@ -295,7 +295,18 @@ class Case:
             tm.gradient__ = True
             now = [p.data for p in params] + [b.running_mean.data for b in bns] + [b.running_var.data for b in bns]
             for k, (a, b) in enumerate(zip(now, snap)):
-                out.pair("test changed nothing (%d)" % k, a, b)
+                out.pair("test changed nothing (%d)" % k, snapshot(a), b)
+        if sp.get("fit_twice"):
+            # the same compiled trainer fitted again (more epochs, this time without a validation loader): the history
+            # returned by *this* call has one entry per epoch of this call, for the metrics of this call
+            n_before = len([e for e in log if e[0] == "step"])
+            first_lengths = {k_: len(v_) for k_, v_ in history.items()}
+            h2 = trainer.fit(train_loader, 2, validation_loader=None)
+            keys2 = {"loss"} | set(metric_names)
+            out.fact("second fit: history has one entry per epoch of that call for the loss and every metric", set(h2) == keys2 and
+                     all(len(v) == 2 for v in h2.values()), "keys %s lengths %s (first fit: %s)" % (sorted(h2), [len(v) for v in h2.values()], first_lengths))
+            out.fact("second fit: exactly epochs x len(train_loader) further updates",
+                     len([e for e in log if e[0] == "step"]) - n_before == 2 * nb)
         return out
 
 
@@ -313,6 +324,8 @@ def enumerate_specs(tier):
                       "test": False, "callbacks": True})
         specs.append({"epochs": 1, "batches": nb, "val": val, "evaluator": None, "grad_on_entry": True, "test": False,
                       "stale_grads": True})
+        specs.append({"epochs": 1, "batches": nb, "val": val, "evaluator": None, "grad_on_entry": True, "test": False,
+                      "fit_twice": True})
     for mode in ("binary", "multi-class", "categorical"):
         for val in (False, True):
             specs.append({"epochs": 1, "batches": 1, "val": val, "evaluator": mode, "grad_on_entry": True, "test": False})
